@@ -3,6 +3,7 @@
 //! allocator.  A footer parser must return Ok or Err: a panic is a violation, and so is a single allocation request that is
 //! out of proportion to the input (an untrusted count used as an allocation size).
 //! Prints `WITNESS ...` and exits 1 on the first violation.
+#![allow(deprecated)]
 use std::alloc::{GlobalAlloc, Layout, System};
 use std::io::Cursor;
 use std::panic::{catch_unwind, AssertUnwindSafe};
@@ -125,5 +126,534 @@ fn main() {
         }
         all(&v);
     }
+    classes::run();
     println!("no violation found");
+}
+
+/// Coverage extension: footers written by an OWN layout writer with every field individually settable, given to all footer entry
+/// points - `CasObjectInfoV1::{deserialize, deserialize_only_boundaries_section, deserialize_async, deserialize_async_v1}`,
+/// `CasObjectInfoV0::{serialize, deserialize, deserialize_async}`, `CasObject::{get_info_length, deserialize, deserialize_async}` -
+/// under the recording allocator.  Oracle: a parser that answers Ok must return a struct that is well-formed (constants, the three
+/// counts == table lengths, section offsets == the layout formula) and whose own re-encoding (by the layout writer here) equals
+/// the bytes it was given; the canonical footer must be accepted with exactly the fields written; every class below is
+/// non-canonical in a field the parser is responsible for and must be answered with Err.
+mod classes {
+    use std::io::Cursor;
+    use std::panic::{catch_unwind, AssertUnwindSafe};
+    use std::sync::atomic::Ordering;
+
+    use cas_object::{CasObject, CasObjectInfoV0, CasObjectInfoV1};
+    use futures::executor::block_on;
+    use merklehash::MerkleHash;
+
+    use super::{hex, witness, ALLOC_LIMIT, MAX_REQUEST};
+
+    fn guard<T>(name: &str, what: &str, input: &[u8], f: impl FnOnce() -> T) -> T {
+        MAX_REQUEST.store(0, Ordering::Relaxed);
+        let r = catch_unwind(AssertUnwindSafe(f));
+        let peak = MAX_REQUEST.load(Ordering::Relaxed);
+        let shown = if input.len() <= 400 { hex(input) } else { format!("{}...", hex(&input[..400])) };
+        match r {
+            Err(e) => {
+                let msg = e.downcast_ref::<String>().cloned().or_else(|| e.downcast_ref::<&str>().map(|s| s.to_string())).unwrap_or_default();
+                witness(format!("{name} panicked on {what} ({} bytes: {shown}): {msg}", input.len()))
+            },
+            Ok(v) => {
+                if peak > ALLOC_LIMIT {
+                    witness(format!("{name} requested a single allocation of {peak} bytes for {what} ({} bytes: {shown})", input.len()));
+                }
+                v
+            },
+        }
+    }
+
+    #[derive(Clone)]
+    struct F {
+        ident: [u8; 7],
+        version: u8,
+        cashash: [u8; 32],
+        hid: [u8; 7],
+        hver: u8,
+        n2: u32,
+        hashes: Vec<[u8; 32]>,
+        bid: [u8; 7],
+        bver: u8,
+        n3: u32,
+        bounds: Vec<u32>,
+        unpacked: Vec<u32>,
+        n: u32,
+        hoff: u32,
+        boff: u32,
+        buffer: [u8; 16],
+    }
+    fn boff_for(k: usize) -> u32 { (7 + 1 + 4 + 8 * k + 4 + 4 + 4 + 16) as u32 }
+    fn hoff_for(k: usize) -> u32 { (7 + 1 + 4 + 32 * k) as u32 + boff_for(k) }
+    fn pat(tag: u8, i: usize) -> [u8; 32] {
+        let mut h = [0u8; 32];
+        for (j, b) in h.iter_mut().enumerate() { *b = tag.wrapping_mul(37).wrapping_add((i * 32 + j) as u8).wrapping_mul(101) | 1; }
+        h
+    }
+    impl F {
+        fn canonical(k: usize) -> F {
+            F {
+                ident: *b"XETBLOB", version: 1, cashash: pat(200, 0),
+                hid: *b"XBLBHSH", hver: 0, n2: k as u32, hashes: (0..k).map(|i| pat(1, i)).collect(),
+                bid: *b"XBLBBND", bver: 1, n3: k as u32,
+                bounds: (0..k).map(|i| 108 * (i as u32 + 1)).collect(), unpacked: (0..k).map(|i| 100 * (i as u32 + 1)).collect(),
+                n: k as u32, hoff: hoff_for(k), boff: boff_for(k), buffer: [0; 16],
+            }
+        }
+        fn bytes(&self) -> Vec<u8> {
+            let mut v = vec![];
+            v.extend_from_slice(&self.ident); v.push(self.version); v.extend_from_slice(&self.cashash);
+            v.extend_from_slice(&self.hid); v.push(self.hver); v.extend_from_slice(&self.n2.to_le_bytes());
+            for h in &self.hashes { v.extend_from_slice(h); }
+            v.extend_from_slice(&self.boundary_section());
+            v
+        }
+        fn boundary_section(&self) -> Vec<u8> {
+            let mut v = vec![];
+            v.extend_from_slice(&self.bid); v.push(self.bver); v.extend_from_slice(&self.n3.to_le_bytes());
+            for b in &self.bounds { v.extend_from_slice(&b.to_le_bytes()); }
+            for b in &self.unpacked { v.extend_from_slice(&b.to_le_bytes()); }
+            v.extend_from_slice(&self.n.to_le_bytes()); v.extend_from_slice(&self.hoff.to_le_bytes()); v.extend_from_slice(&self.boff.to_le_bytes());
+            v.extend_from_slice(&self.buffer);
+            v
+        }
+        /// the V0 layout: ident, version, cashash, count, boundaries, hashes, 16 spare bytes
+        fn bytes_v0(&self) -> Vec<u8> {
+            let mut v = vec![];
+            v.extend_from_slice(&self.ident); v.push(self.version); v.extend_from_slice(&self.cashash);
+            v.extend_from_slice(&self.n.to_le_bytes());
+            for b in &self.bounds { v.extend_from_slice(&b.to_le_bytes()); }
+            for h in &self.hashes { v.extend_from_slice(h); }
+            v.extend_from_slice(&self.buffer);
+            v
+        }
+    }
+    fn hb(h: &MerkleHash) -> [u8; 32] {
+        let mut o = [0u8; 32];
+        for w in 0..4 { o[8 * w..8 * w + 8].copy_from_slice(&h[w].to_le_bytes()); }
+        o
+    }
+    /// what the returned struct says, as an F (the 16 spare bytes are not visible: taken from `spare`)
+    fn as_f(i: &CasObjectInfoV1, spare: [u8; 16]) -> F {
+        F {
+            ident: i.ident, version: i.version, cashash: hb(&i.cashash), hid: i.ident_hash_section, hver: i.hashes_version, n2: i.num_chunks,
+            hashes: i.chunk_hashes.iter().map(hb).collect(), bid: i.ident_boundary_section, bver: i.boundaries_version, n3: i.num_chunks,
+            bounds: i.chunk_boundary_offsets.clone(), unpacked: i.unpacked_chunk_offsets.clone(), n: i.num_chunks,
+            hoff: i.hashes_section_offset_from_end, boff: i.boundary_section_offset_from_end, buffer: spare,
+        }
+    }
+    fn spare_of(region: &[u8]) -> [u8; 16] {
+        let mut s = [0u8; 16];
+        if region.len() >= 16 { s.copy_from_slice(&region[region.len() - 16..]); }
+        s
+    }
+    /// Ok(()) if `i`, returned for the footer bytes `region`, is a well-formed V1 footer struct whose encoding is `region`
+    fn sound_v1(i: &CasObjectInfoV1, region: &[u8]) -> Result<(), String> {
+        let k = i.num_chunks as usize;
+        if &i.ident != b"XETBLOB" || i.version != 1 || &i.ident_hash_section != b"XBLBHSH" || i.hashes_version != 0 || &i.ident_boundary_section != b"XBLBBND" || i.boundaries_version != 1 {
+            return Err(format!("idents / versions of the returned struct are not the V1 constants (version {}, hashes_version {}, boundaries_version {})", i.version, i.hashes_version, i.boundaries_version));
+        }
+        if i.chunk_hashes.len() != k || i.chunk_boundary_offsets.len() != k || i.unpacked_chunk_offsets.len() != k {
+            return Err(format!("num_chunks {k} but {} hashes, {} boundaries, {} unpacked offsets", i.chunk_hashes.len(), i.chunk_boundary_offsets.len(), i.unpacked_chunk_offsets.len()));
+        }
+        if i.boundary_section_offset_from_end != boff_for(k) || i.hashes_section_offset_from_end != hoff_for(k) {
+            return Err(format!("section offsets ({}, {}) are not those of a footer with {k} chunks ({}, {})", i.hashes_section_offset_from_end, i.boundary_section_offset_from_end, hoff_for(k), boff_for(k)));
+        }
+        if as_f(i, spare_of(region)).bytes() != region {
+            return Err("the returned struct does not encode to the bytes that were parsed".into());
+        }
+        Ok(())
+    }
+    /// the struct `from_v0` must produce for the V0 footer bytes `region`
+    fn sound_from_v0(i: &CasObjectInfoV1, region: &[u8]) -> Result<(), String> {
+        let k = i.num_chunks as usize;
+        if &i.ident != b"XETBLOB" || i.version != 1 || &i.ident_hash_section != b"XBLBHSH" || i.hashes_version != 0 || &i.ident_boundary_section != b"XBLBBND" || i.boundaries_version != 0 {
+            return Err(format!("a V0 footer must come back as version 1 / hashes_version 0 / boundaries_version 0 (no unpacked info), got {} / {} / {}", i.version, i.hashes_version, i.boundaries_version));
+        }
+        if i.chunk_hashes.len() != k || i.chunk_boundary_offsets.len() != k || !i.unpacked_chunk_offsets.is_empty() {
+            return Err(format!("num_chunks {k} but {} hashes, {} boundaries, {} unpacked offsets (a V0 footer has none)", i.chunk_hashes.len(), i.chunk_boundary_offsets.len(), i.unpacked_chunk_offsets.len()));
+        }
+        let boff = (7 + 1 + 4 + 4 * k + 4 + 4 + 4 + 16) as u32;
+        if i.boundary_section_offset_from_end != boff || i.hashes_section_offset_from_end != boff + (12 + 32 * k) as u32 {
+            return Err(format!("section offsets ({}, {}) are not those fill_in_boundary_offsets defines for {k} chunks without unpacked offsets", i.hashes_section_offset_from_end, i.boundary_section_offset_from_end));
+        }
+        let mut f = as_f(i, spare_of(region));
+        f.version = 0;
+        if f.bytes_v0() != region {
+            return Err("the returned struct does not encode (V0 layout) to the bytes that were parsed".into());
+        }
+        Ok(())
+    }
+    fn sound_any(i: &CasObjectInfoV1, region: &[u8]) -> Result<(), String> {
+        if region.len() >= 8 && region[7] == 0 { sound_from_v0(i, region) } else { sound_v1(i, region) }
+    }
+
+    #[derive(Clone, Copy, PartialEq)]
+    enum Exp { Accept, Reject, Sound }
+    static N_ACCEPTED: std::sync::atomic::AtomicUsize = std::sync::atomic::AtomicUsize::new(0);
+    static N_REJECTED: std::sync::atomic::AtomicUsize = std::sync::atomic::AtomicUsize::new(0);
+
+    fn verdict(name: &str, what: &str, input: &[u8], exp: Exp, got: Result<Result<(), String>, String>) {
+        let shown = if input.len() <= 400 { hex(input) } else { format!("{}...", hex(&input[..400])) };
+        match got {
+            Ok(Ok(())) => {
+                N_ACCEPTED.fetch_add(1, Ordering::Relaxed);
+                if exp == Exp::Reject {
+                    witness(format!("{name} ACCEPTS {what} ({} bytes: {shown})", input.len()));
+                }
+            },
+            Ok(Err(why)) => witness(format!("{name} ACCEPTS {what} and returns a footer that does not match the bytes: {why} ({} bytes: {shown})", input.len())),
+            Err(e) => {
+                N_REJECTED.fetch_add(1, Ordering::Relaxed);
+                if exp == Exp::Accept {
+                    witness(format!("{name} REJECTS {what}: {e} ({} bytes: {shown})", input.len()));
+                }
+            },
+        }
+    }
+
+    struct Case {
+        what: String,
+        /// arbitrary bytes in front (chunk section stand-in)
+        prefix: Vec<u8>,
+        footer: Vec<u8>,
+        info_length: u32,
+        extra: Vec<u8>,
+        full: Exp,       // CasObjectInfoV1::deserialize on the footer bytes
+        boundaries: Exp, // deserialize_only_boundaries_section on the file
+        object: Exp,     // CasObject::deserialize / deserialize_async on the file
+    }
+
+    fn run_case(c: &Case) {
+        let mut file = c.prefix.clone();
+        file.extend_from_slice(&c.footer);
+        file.extend_from_slice(&c.info_length.to_le_bytes());
+        file.extend_from_slice(&c.extra);
+        let what = &c.what;
+        // --- sync, footer alone
+        let name = "CasObjectInfoV1::deserialize";
+        let r = guard(name, what, &c.footer, || CasObjectInfoV1::deserialize(&mut Cursor::new(&c.footer[..])));
+        verdict(name, what, &c.footer, c.full, match r {
+            Ok((i, n)) => Ok(if n as usize > c.footer.len() { Err(format!("reports {n} bytes read of {}", c.footer.len())) } else { sound_any(&i, &c.footer[..n as usize]).and_then(|_| if c.full == Exp::Accept && n as usize != c.footer.len() { Err(format!("reports {n} bytes read, the footer has {}", c.footer.len())) } else { Ok(()) }) }),
+            Err(e) => Err(e.to_string()),
+        });
+        // --- sync, whole file
+        let name = "CasObject::get_info_length";
+        let r = guard(name, what, &file, || CasObject::get_info_length(&mut Cursor::new(&file[..])));
+        match r {
+            Ok(l) if file.len() >= 4 && l.to_le_bytes() == file[file.len() - 4..] => {},
+            Err(_) if file.len() < 4 => {},
+            other => witness(format!("{name} on {what} ({} bytes) returns {other:?}, the last four bytes are {}", file.len(), hex(&file[file.len().saturating_sub(4)..]))),
+        }
+        let name = "CasObject::deserialize";
+        let r = guard(name, what, &file, || CasObject::deserialize(&mut Cursor::new(&file[..])));
+        verdict(name, what, &file, c.object, match r {
+            Ok(cas) => Ok((|| {
+                let il = cas.info_length as usize;
+                if file.len() < 4 || cas.info_length.to_le_bytes() != file[file.len() - 4..] { return Err(format!("info_length {il} is not what the last four bytes say")); }
+                if il + 4 > file.len() { return Err(format!("info_length {il} exceeds the file")); }
+                sound_any(&cas.info, &file[file.len() - 4 - il..file.len() - 4])
+            })()),
+            Err(e) => Err(e.to_string()),
+        });
+        let name = "CasObjectInfoV1::deserialize_only_boundaries_section";
+        let r = guard(name, what, &file, || CasObjectInfoV1::deserialize_only_boundaries_section(&mut Cursor::new(&file[..])));
+        verdict(name, what, &file, c.boundaries, match r {
+            Ok((i, n)) => Ok((|| {
+                let k = i.num_chunks as usize;
+                if &i.ident_boundary_section != b"XBLBBND" || i.boundaries_version != 1 { return Err(format!("boundary ident / version {} of the returned struct are not the constants", i.boundaries_version)); }
+                if i.chunk_boundary_offsets.len() != k || i.unpacked_chunk_offsets.len() != k || !i.chunk_hashes.is_empty() {
+                    return Err(format!("num_chunks {k} but {} boundaries, {} unpacked offsets, {} hashes (none are read)", i.chunk_boundary_offsets.len(), i.unpacked_chunk_offsets.len(), i.chunk_hashes.len()));
+                }
+                if i.boundary_section_offset_from_end != boff_for(k) || n != boff_for(k) { return Err(format!("boundary_section_offset_from_end {} / {n} bytes read, a section with {k} chunks has {}", i.boundary_section_offset_from_end, boff_for(k))); }
+                if file.len() < 4 + n as usize { return Err("section longer than the file".into()); }
+                let region = &file[file.len() - 4 - n as usize..file.len() - 4];
+                if as_f(&i, spare_of(region)).boundary_section() != region { return Err("the returned struct does not encode to the bytes of the boundary section".into()); }
+                Ok(())
+            })()),
+            Err(e) => Err(e.to_string()),
+        });
+        // --- async (reader positioned after ident + version, the version is handed over by the caller)
+        if c.footer.len() >= 8 && &c.footer[..7] == b"XETBLOB" {
+            let version = c.footer[7];
+            let rest: Vec<u8> = file[c.prefix.len() + 8..].to_vec();
+            let flen = c.footer.len();
+            let name = "CasObject::deserialize_async";
+            let r = guard(name, what, &rest, || block_on(async { let mut rd: &[u8] = &rest; CasObject::deserialize_async(&mut rd, version).await }));
+            // (trailing bytes after info_length must be refused: "content past the end")
+            let exp = if !c.extra.is_empty() { Exp::Reject } else { c.object };
+            verdict(name, what, &rest, exp, match r {
+                Ok(cas) => Ok((|| {
+                    if cas.info_length as usize != flen || cas.info_length != c.info_length { return Err(format!("info_length {} but the footer has {flen} bytes and is followed by the length field {}", cas.info_length, c.info_length)); }
+                    if !c.extra.is_empty() { return Err(format!("{} bytes follow the length field", c.extra.len())); }
+                    sound_any(&cas.info, &c.footer)
+                })()),
+                Err(e) => Err(e.to_string()),
+            });
+            let name = "CasObjectInfoV1::deserialize_async";
+            let body = &c.footer[8..];
+            let r = guard(name, what, body, || block_on(async { let mut rd: &[u8] = body; CasObjectInfoV1::deserialize_async(&mut rd, version).await }));
+            verdict(name, what, body, c.full, match r {
+                Ok((i, n)) => Ok(if n as usize > flen { Err(format!("reports {n} bytes of {flen}")) } else { sound_any(&i, &c.footer[..n as usize]) }),
+                Err(e) => Err(e.to_string()),
+            });
+            if version == 1 {
+                let name = "CasObjectInfoV1::deserialize_async_v1";
+                let r = guard(name, what, body, || block_on(async { let mut rd: &[u8] = body; CasObjectInfoV1::deserialize_async_v1(&mut rd).await }));
+                verdict(name, what, body, c.full, match r {
+                    Ok((i, n)) => Ok(if n as usize > flen { Err(format!("reports {n} bytes of {flen}")) } else { sound_v1(&i, &c.footer[..n as usize]) }),
+                    Err(e) => Err(e.to_string()),
+                });
+            }
+        }
+    }
+
+    fn v1_case(what: String, f: &F, full: Exp, boundaries: Exp, object: Exp) -> Case {
+        let footer = f.bytes();
+        let il = footer.len() as u32;
+        Case { what, prefix: vec![0xAA; 20], footer, info_length: il, extra: vec![], full, boundaries, object }
+    }
+
+    pub fn run() {
+        use Exp::*;
+        for k in [0usize, 1, 3, 5] {
+            let canon = F::canonical(k);
+            let d = |s: &str| format!("a V1 footer for {k} chunks, {s}");
+            // canonical: accepted with exactly these fields (the soundness oracle compares the encoding)
+            run_case(&v1_case(d("canonical"), &canon, Accept, Accept, Accept));
+            // spare bytes are free
+            let mut f = canon.clone(); f.buffer = [0xC3; 16];
+            run_case(&v1_case(d("spare buffer bytes set to 0xC3"), &f, Accept, Accept, Accept));
+            // --- idents: every position changed
+            for pos in 0..7 {
+                for x in [0x20u8, 0xFF] {
+                    let mut f = canon.clone(); f.ident[pos] ^= x;
+                    run_case(&v1_case(d(&format!("first ident byte {pos} xored with {x:#04x}")), &f, Reject, Accept, Reject));
+                    let mut f = canon.clone(); f.hid[pos] ^= x;
+                    run_case(&v1_case(d(&format!("hash-section ident byte {pos} xored with {x:#04x}")), &f, Reject, Accept, Reject));
+                    let mut f = canon.clone(); f.bid[pos] ^= x;
+                    run_case(&v1_case(d(&format!("boundary-section ident byte {pos} xored with {x:#04x}")), &f, Reject, Reject, Reject));
+                }
+            }
+            // idents exchanged between the sections
+            let mut f = canon.clone(); std::mem::swap(&mut f.hid, &mut f.bid);
+            run_case(&v1_case(d("hash- and boundary-section idents exchanged"), &f, Reject, Reject, Reject));
+            // --- version bytes
+            for v in [0u8, 2, 3, 255] {
+                let mut f = canon.clone(); f.version = v;
+                // (version 0 makes the same bytes a V0 footer whose count field is 'XBLB': far more entries than bytes)
+                run_case(&v1_case(d(&format!("format version byte {v}")), &f, Reject, Accept, Reject));
+                let mut f = canon.clone(); f.bver = v;
+                run_case(&v1_case(d(&format!("boundaries-section version byte {v}")), &f, Reject, Reject, Reject));
+            }
+            for v in [1u8, 2, 3, 255] {
+                let mut f = canon.clone(); f.hver = v;
+                run_case(&v1_case(d(&format!("hashes-section version byte {v}")), &f, Reject, Accept, Reject));
+            }
+            // --- the three copies of the chunk count (tables unchanged)
+            let kk = k as u32;
+            for delta in [kk.wrapping_sub(1), kk + 1, 0, 1 << 16, u32::MAX] {
+                if delta == kk { continue; }
+                let mut f = canon.clone(); f.n2 = delta;
+                run_case(&v1_case(d(&format!("count in the hash section = {delta}")), &f, Reject, Accept, Reject));
+                let mut f = canon.clone(); f.n3 = delta;
+                run_case(&v1_case(d(&format!("count in the boundary section = {delta}")), &f, Reject, Reject, Reject));
+                let mut f = canon.clone(); f.n = delta;
+                run_case(&v1_case(d(&format!("count in the fixed tail = {delta}")), &f, Reject, Reject, Reject));
+                let mut f = canon.clone(); f.n2 = delta; f.n3 = delta; f.n = delta;
+                run_case(&v1_case(d(&format!("all three counts = {delta} with tables for {k} entries")), &f, Reject, Reject, Reject));
+                let mut f = canon.clone(); f.n2 = delta; f.n3 = delta;
+                run_case(&v1_case(d(&format!("both section counts = {delta}, tail count {k}")), &f, Reject, Reject, Reject));
+            }
+            // tables of different lengths under one consistent count
+            if k > 0 {
+                let mut f = canon.clone(); f.unpacked.pop();
+                run_case(&v1_case(d("one unpacked offset missing"), &f, Reject, Reject, Reject));
+                let mut f = canon.clone(); f.bounds.push(7);
+                run_case(&v1_case(d("one boundary offset too many"), &f, Reject, Reject, Reject));
+                let mut f = canon.clone(); f.hashes.pop();
+                run_case(&v1_case(d("one chunk hash missing"), &f, Reject, Sound, Reject));
+            }
+            // --- section offsets from the end
+            let flen = canon.bytes().len() as u32;
+            for off in [0u32, 1, 24, 28, canon.boff - 1, canon.boff + 1, canon.hoff - 1, canon.hoff + 1, flen, flen + 4, flen + 20, flen + 24, flen + 25, 1 << 31, u32::MAX - 4, u32::MAX - 3, u32::MAX] {
+                if off != canon.hoff {
+                    let mut f = canon.clone(); f.hoff = off;
+                    run_case(&v1_case(d(&format!("hashes_section_offset_from_end = {off} (right value {})", canon.hoff)), &f, Reject, Accept, Reject));
+                }
+                if off != canon.boff {
+                    let mut f = canon.clone(); f.boff = off;
+                    run_case(&v1_case(d(&format!("boundary_section_offset_from_end = {off} (right value {})", canon.boff)), &f, Reject, Reject, Reject));
+                }
+            }
+            let mut f = canon.clone(); f.boff = canon.hoff; // points at the hash section
+            run_case(&v1_case(d("boundary_section_offset_from_end pointing at the hash section"), &f, Reject, Reject, Reject));
+            let mut f = canon.clone(); std::mem::swap(&mut f.boff, &mut f.hoff);
+            run_case(&v1_case(d("the two section offsets exchanged"), &f, Reject, Reject, Reject));
+            // --- the trailing info_length
+            for il in [0u32, 1, 4, flen - 1, flen + 1, flen - 8, flen + 19, flen + 20, flen + 21, flen + 24, 2 * flen, 1 << 31, u32::MAX - 3, u32::MAX] {
+                if il == flen { continue; }
+                let mut c = v1_case(d(&format!("followed by info_length = {il} (footer has {flen} bytes, file {} bytes)", flen + 24)), &canon, Accept, Accept, Reject);
+                c.info_length = il;
+                run_case(&c);
+            }
+            // --- bytes after the length field
+            for extra in [vec![0u8], vec![0u8; 3], vec![0u8; 4], (flen).to_le_bytes().to_vec(), vec![0xAA; 8], vec![0u8; 9]] {
+                let mut c = v1_case(d(&format!("with {} bytes {} after the length field", extra.len(), hex(&extra))), &canon, Accept, Sound, Reject);
+                // (appending the length again leaves a file whose LAST four bytes are a length too, but the footer is then 4 bytes off)
+                c.extra = extra;
+                run_case(&c);
+            }
+            // --- truncation at every offset (footer alone; whole file; async body)
+            let file = { let mut v = vec![0xAAu8; 20]; v.extend_from_slice(&canon.bytes()); v.extend_from_slice(&flen.to_le_bytes()); v };
+            for cut in 0..file.len() {
+                let t = &file[..cut];
+                let what = d(&format!("file (20 bytes + footer + length) truncated to {cut} of {} bytes", file.len()));
+                for (name, ok) in [
+                    ("CasObject::deserialize", guard("CasObject::deserialize", &what, t, || CasObject::deserialize(&mut Cursor::new(t)).is_ok())),
+                    ("CasObjectInfoV1::deserialize_only_boundaries_section", guard("CasObjectInfoV1::deserialize_only_boundaries_section", &what, t, || CasObjectInfoV1::deserialize_only_boundaries_section(&mut Cursor::new(t)).is_ok())),
+                ] {
+                    if ok { witness(format!("{name} ACCEPTS {what} ({})", hex(t))); }
+                }
+                let _ = guard("CasObject::get_info_length", &what, t, || CasObject::get_info_length(&mut Cursor::new(t)).is_ok());
+            }
+            let footer = canon.bytes();
+            for cut in 0..footer.len() {
+                let t = &footer[..cut];
+                let what = d(&format!("footer truncated to {cut} of {} bytes", footer.len()));
+                if guard("CasObjectInfoV1::deserialize", &what, t, || CasObjectInfoV1::deserialize(&mut Cursor::new(t)).is_ok()) {
+                    witness(format!("CasObjectInfoV1::deserialize ACCEPTS {what} ({})", hex(t)));
+                }
+            }
+            let body = { let mut v = footer[8..].to_vec(); v.extend_from_slice(&flen.to_le_bytes()); v };
+            for cut in 0..body.len() {
+                let t = &body[..cut];
+                let what = d(&format!("async body (footer after ident and version, + length field) truncated to {cut} of {} bytes", body.len()));
+                if guard("CasObject::deserialize_async", &what, t, || block_on(async { let mut rd: &[u8] = t; CasObject::deserialize_async(&mut rd, 1).await }).is_ok()) {
+                    witness(format!("CasObject::deserialize_async ACCEPTS {what} ({})", hex(t)));
+                }
+                if cut < body.len() - 4 && guard("CasObjectInfoV1::deserialize_async", &what, t, || block_on(async { let mut rd: &[u8] = t; CasObjectInfoV1::deserialize_async(&mut rd, 1).await }).is_ok()) {
+                    witness(format!("CasObjectInfoV1::deserialize_async ACCEPTS {what} ({})", hex(t)));
+                }
+            }
+            // version handed to the async parsers although the bytes are V1: every value but 1 must fail
+            for v in [0u8, 2, 3, 255] {
+                let what = d(&format!("async body parsed with the caller-supplied version {v}"));
+                if guard("CasObject::deserialize_async", &what, &body, || block_on(async { let mut rd: &[u8] = &body; CasObject::deserialize_async(&mut rd, v).await }).is_ok()) {
+                    witness(format!("CasObject::deserialize_async ACCEPTS {what}"));
+                }
+            }
+
+            // ------------------------------------------------------------------------------------------------------------------
+            // V0 footers
+            // ------------------------------------------------------------------------------------------------------------------
+            let mut v0 = canon.clone();
+            v0.version = 0;
+            v0.buffer = [0; 16];
+            let v0b = v0.bytes_v0();
+            let d0 = |s: &str| format!("a V0 footer for {k} chunks, {s}");
+            // the real serializer writes exactly this layout
+            let mut s0 = CasObjectInfoV0::default();
+            s0.cashash = MerkleHash::from(&v0.cashash);
+            s0.num_chunks = k as u32;
+            s0.chunk_boundary_offsets = v0.bounds.clone();
+            s0.chunk_hashes = v0.hashes.iter().map(MerkleHash::from).collect();
+            let mut out = vec![];
+            match guard("CasObjectInfoV0::serialize", &d0("canonical"), &v0b, || s0.serialize(&mut out)) {
+                Ok(n) if n == out.len() && out == v0b => {},
+                other => witness(format!("CasObjectInfoV0::serialize of {} writes {} bytes ({}) and returns {other:?}; the V0 layout is {} bytes ({})", d0("canonical"), out.len(), hex(&out), v0b.len(), hex(&v0b))),
+            }
+            match guard("CasObjectInfoV0::deserialize", &d0("canonical"), &v0b, || CasObjectInfoV0::deserialize(&mut Cursor::new(&v0b[..]))) {
+                Ok((i, n)) if i == s0 && n as usize == v0b.len() => {},
+                other => witness(format!("CasObjectInfoV0::deserialize of {} returns {:?}, expected the struct that was serialized and {} bytes read", d0("canonical"), other.map(|x| (x.0.num_chunks, x.1)).map_err(|e| e.to_string()), v0b.len())),
+            }
+            match guard("CasObjectInfoV0::deserialize_async", &d0("canonical"), &v0b, || block_on(async { let mut rd: &[u8] = &v0b[8..]; CasObjectInfoV0::deserialize_async(&mut rd, 0).await })) {
+                Ok((i, n)) if i == s0 && n as usize == v0b.len() => {},
+                other => witness(format!("CasObjectInfoV0::deserialize_async of {} returns {:?}, expected the struct that was serialized and {} bytes counted", d0("canonical"), other.map(|x| (x.0.num_chunks, x.1)).map_err(|e| e.to_string()), v0b.len())),
+            }
+            // conversions
+            let conv = guard("CasObjectInfoV1::from_v0", &d0("canonical"), &v0b, || CasObjectInfoV1::from_v0(s0.clone()));
+            if let Err(why) = sound_from_v0(&conv, &v0b) {
+                witness(format!("CasObjectInfoV1::from_v0 of {}: {why}", d0("canonical")));
+            }
+            if conv.has_chunk_hashes() != (k > 0) {
+                witness(format!("has_chunk_hashes() is {} on a footer with {k} chunk hashes", conv.has_chunk_hashes()));
+            }
+            let conv2 = guard("CasObjectInfoV1::from_v0_with_unpacked_chunk_offsets", &d0("canonical"), &v0b, || CasObjectInfoV1::from_v0_with_unpacked_chunk_offsets(s0.clone(), canon.unpacked.clone()));
+            if let Err(why) = sound_v1(&conv2, &canon.bytes()) {
+                witness(format!("CasObjectInfoV1::from_v0_with_unpacked_chunk_offsets of {} and the unpacked offsets {:?} is not the V1 footer with the same contents: {why}", d0("canonical"), canon.unpacked));
+            }
+            // through the V1 entry points
+            let mut c = Case { what: d0("canonical"), prefix: vec![0xAA; 20], footer: v0b.clone(), info_length: v0b.len() as u32, extra: vec![], full: Accept, boundaries: Reject, object: Accept };
+            run_case(&c);
+            c.what = d0("followed by one extra byte"); c.extra = vec![0]; c.object = Reject; c.boundaries = Sound;
+            run_case(&c);
+            for il in [0u32, v0b.len() as u32 - 1, v0b.len() as u32 + 1, v0b.len() as u32 + 21, u32::MAX] {
+                let c = Case { what: d0(&format!("followed by info_length = {il} (footer has {} bytes)", v0b.len())), prefix: vec![0xAA; 20], footer: v0b.clone(), info_length: il, extra: vec![], full: Accept, boundaries: Sound, object: Reject };
+                run_case(&c);
+            }
+            for cnt in [kk.wrapping_sub(1), kk + 1, 1 << 16, 1 << 24, u32::MAX] {
+                if cnt == kk { continue; }
+                let mut f = v0.clone(); f.n = cnt;
+                let fb = f.bytes_v0();
+                // (a smaller count makes the V0 parsers stop early: a sound parse of a PREFIX, which only the length check of
+                // CasObject::deserialize can notice)
+                let c = Case { what: d0(&format!("count field = {cnt} with tables for {k} entries")), prefix: vec![0xAA; 20], footer: fb.clone(), info_length: fb.len() as u32, extra: vec![], full: if cnt < kk { Sound } else { Reject }, boundaries: Sound, object: Reject };
+                run_case(&c);
+                if cnt < kk { continue; }
+                let what = &c.what;
+                if guard("CasObjectInfoV0::deserialize", what, &fb, || CasObjectInfoV0::deserialize(&mut Cursor::new(&fb[..])).is_ok()) {
+                    witness(format!("CasObjectInfoV0::deserialize ACCEPTS {what} ({})", hex(&fb)));
+                }
+                if guard("CasObjectInfoV0::deserialize_async", what, &fb, || block_on(async { let mut rd: &[u8] = &fb[8..]; CasObjectInfoV0::deserialize_async(&mut rd, 0).await }).is_ok()) {
+                    witness(format!("CasObjectInfoV0::deserialize_async ACCEPTS {what} ({})", hex(&fb)));
+                }
+            }
+            for v in [1u8, 2, 255] {
+                let mut fb = v0b.clone(); fb[7] = v;
+                let what = d0(&format!("version byte {v}"));
+                if guard("CasObjectInfoV0::deserialize", &what, &fb, || CasObjectInfoV0::deserialize(&mut Cursor::new(&fb[..])).is_ok()) {
+                    witness(format!("CasObjectInfoV0::deserialize ACCEPTS {what} ({})", hex(&fb)));
+                }
+            }
+            for pos in 0..7 {
+                let mut fb = v0b.clone(); fb[pos] ^= 0x20;
+                let what = d0(&format!("ident byte {pos} xored with 0x20"));
+                if guard("CasObjectInfoV0::deserialize", &what, &fb, || CasObjectInfoV0::deserialize(&mut Cursor::new(&fb[..])).is_ok()) {
+                    witness(format!("CasObjectInfoV0::deserialize ACCEPTS {what} ({})", hex(&fb)));
+                }
+                let c = Case { what, prefix: vec![0xAA; 20], footer: fb.clone(), info_length: fb.len() as u32, extra: vec![], full: Reject, boundaries: Sound, object: Reject };
+                run_case(&c);
+            }
+            for cut in 0..v0b.len() {
+                let t = &v0b[..cut];
+                let what = d0(&format!("truncated to {cut} of {} bytes", v0b.len()));
+                if guard("CasObjectInfoV0::deserialize", &what, t, || CasObjectInfoV0::deserialize(&mut Cursor::new(t)).is_ok()) {
+                    witness(format!("CasObjectInfoV0::deserialize ACCEPTS {what} ({})", hex(t)));
+                }
+                if guard("CasObjectInfoV1::deserialize", &what, t, || CasObjectInfoV1::deserialize(&mut Cursor::new(t)).is_ok()) {
+                    witness(format!("CasObjectInfoV1::deserialize ACCEPTS {what} ({})", hex(t)));
+                }
+                if cut >= 8 && guard("CasObjectInfoV0::deserialize_async", &what, t, || block_on(async { let mut rd: &[u8] = &t[8..]; CasObjectInfoV0::deserialize_async(&mut rd, 0).await }).is_ok()) {
+                    witness(format!("CasObjectInfoV0::deserialize_async ACCEPTS {what} ({})", hex(t)));
+                }
+                let mut tf = vec![0xAAu8; 20]; tf.extend_from_slice(t);
+                if cut >= 4 && guard("CasObject::deserialize", &what, &tf, || CasObject::deserialize(&mut Cursor::new(&tf[..])).is_ok()) {
+                    witness(format!("CasObject::deserialize ACCEPTS 20 bytes + {what}"));
+                }
+            }
+        }
+        // a footer with more chunks than the parsers pre-allocate for (1152), parsed exactly
+        for k in [1152usize, 1153, 4000] {
+            let f = F::canonical(k);
+            run_case(&v1_case(format!("a V1 footer for {k} chunks, canonical"), &f, Accept, Accept, Accept));
+            let mut v0 = f.clone(); v0.version = 0;
+            let fb = v0.bytes_v0();
+            run_case(&Case { what: format!("a V0 footer for {k} chunks, canonical"), prefix: vec![0xAA; 20], footer: fb.clone(), info_length: fb.len() as u32, extra: vec![], full: Accept, boundaries: Reject, object: Accept });
+        }
+        println!("footer classes: {} parser answers Ok (all sound), {} Err", N_ACCEPTED.load(Ordering::Relaxed), N_REJECTED.load(Ordering::Relaxed));
+    }
 }
